@@ -115,10 +115,6 @@ func checkC18(x *X, c *Case, strict bool) *Outcome {
 	}
 	for _, pk := range livePkgs(x.G) {
 		beginCase(x.G.ID, pk.Name, c)
-		alone := make([]*jobResult, len(c.Jobs))
-		for i := range c.Jobs {
-			alone[i] = runJob(pk, &c.Jobs[i], safety)
-		}
 		old := runtime.GOMAXPROCS(c.Procs)
 		conc := make([]*jobResult, len(c.Jobs))
 		var wg sync.WaitGroup
@@ -134,6 +130,13 @@ func checkC18(x *X, c *Case, strict bool) *Outcome {
 		close(startGate)
 		wg.Wait()
 		runtime.GOMAXPROCS(old)
+		// the runs "alone" come second: the first concurrent calls of a process must not find
+		// anything warmed up by an earlier sequential call (tables built lazily on first use in
+		// the shared grammar would be built before the goroutines start)
+		alone := make([]*jobResult, len(c.Jobs))
+		for i := range c.Jobs {
+			alone[i] = runJob(pk, &c.Jobs[i], safety)
+		}
 		endCase()
 		o.Evals += 2 * len(c.Jobs)
 		overlap := false
